@@ -144,44 +144,54 @@ Definition opk_eqb (a b : opk) : bool :=
 Definition peek_op (ts : list tok) : opk :=
   if is_tk WHITESPACE ts then op_of_tk (hd2_tk ts) else ONone.
 
-(* relationDef (direct = true) / relationDefNoDirect (direct = false), and the operands *)
-Fixpoint p_def (fuel : nat) (direct : bool) (ts : list tok) : P (relem * opk * list relem) :=
+(* relationDef (direct = true) / relationDefNoDirect (direct = false), and the operands.
+   The recursion (one level of parentheses deeper) is passed in as [rec] so that the pieces can be
+   reasoned about separately; [p_def] ties the knot on fuel. *)
+Definition def_result := (relem * opk * list relem)%type.
+
+(* relationDefGrouping | relationRecurseNoDirect *)
+Definition p_operand_with (rec : bool -> list tok -> P def_result) (ts : list tok) : P relem :=
+  if is_tk LPAREN ts then
+    do (d, ts) <- rec false (skip_opt WHITESPACE (tl ts));
+    do (_, ts) <- expect RPAREN (skip_opt WHITESPACE ts);
+    let '(fi, op, rest) := d in Some (EGroup true fi op rest, ts)
+  else p_rewrite ts.
+
+(* relationDefPartials: (WS op WS operand)+ for or/and, exactly one for but not *)
+Fixpoint p_partials_with (rec : bool -> list tok -> P def_result) (n : nat) (op : opk) (ts : list tok) : P (list relem) :=
+  match n with
+  | O => None
+  | S n' =>
+      if opk_eqb (peek_op ts) op then
+        do (_, ts) <- expect WHITESPACE (tl (tl ts));
+        do (e, ts) <- p_operand_with rec ts;
+        match op with
+        | OButNot => Some ([e], ts)
+        | _ => do (es, ts) <- p_partials_with rec n' op ts; Some (e :: es, ts)
+        end
+      else Some ([], ts)
+  end.
+
+Definition p_def_body (rec : bool -> list tok -> P def_result) (direct : bool) (ts : list tok) : P def_result :=
+  do (fi, ts) <-
+    (if is_tk LBRACKET ts then
+       if direct then do (rs, ts) <- p_direct ts; Some (EDirect rs, ts) else None
+     else if is_tk LPAREN ts then
+       if direct then
+         do (d, ts) <- rec true (skip_opt WHITESPACE (tl ts));
+         do (_, ts) <- expect RPAREN (skip_opt WHITESPACE ts);
+         let '(fi, op, rest) := d in Some (EGroup false fi op rest, ts)
+       else p_operand_with rec ts
+     else p_rewrite ts);
+  match peek_op ts with
+  | ONone => Some ((fi, ONone, []), ts)
+  | op => do (es, ts) <- p_partials_with rec (S (length ts)) op ts; Some ((fi, op, es), ts)
+  end.
+
+Fixpoint p_def (fuel : nat) (direct : bool) (ts : list tok) : P def_result :=
   match fuel with
   | O => None
-  | S f =>
-      let p_operand (ts : list tok) : P relem :=      (* relationDefGrouping | relationRecurseNoDirect *)
-        if is_tk LPAREN ts then
-          do (d, ts) <- p_def f false (skip_opt WHITESPACE (tl ts));
-          do (_, ts) <- expect RPAREN (skip_opt WHITESPACE ts);
-          let '(fi, op, rest) := d in Some (EGroup true fi op rest, ts)
-        else p_rewrite ts in
-      let fix p_partials (n : nat) (op : opk) (ts : list tok) : P (list relem) :=
-        match n with
-        | O => None
-        | S n' =>
-            if opk_eqb (peek_op ts) op then
-              do (_, ts) <- expect WHITESPACE (tl (tl ts));
-              do (e, ts) <- p_operand ts;
-              match op with
-              | OButNot => Some ([e], ts)
-              | _ => do (es, ts) <- p_partials n' op ts; Some (e :: es, ts)
-              end
-            else Some ([], ts)
-        end in
-      do (fi, ts) <-
-        (if is_tk LBRACKET ts then
-           if direct then do (rs, ts) <- p_direct ts; Some (EDirect rs, ts) else None
-         else if is_tk LPAREN ts then
-           if direct then
-             do (d, ts) <- p_def f true (skip_opt WHITESPACE (tl ts));
-             do (_, ts) <- expect RPAREN (skip_opt WHITESPACE ts);
-             let '(fi, op, rest) := d in Some (EGroup false fi op rest, ts)
-           else p_operand ts
-         else p_rewrite ts);
-      match peek_op ts with
-      | ONone => Some ((fi, ONone, []), ts)
-      | op => do (es, ts) <- p_partials (S (length ts)) op ts; Some ((fi, op, es), ts)
-      end
+  | S f => p_def_body (p_def f) direct ts
   end.
 
 (* relationDeclaration *)
